@@ -92,6 +92,43 @@ def run(m: Model, r: Report, tier: str) -> None:
     r.check(m.has(setseeds, "(str(seed) for seed in self.seeds)") and "self.seed(" in ast.unparse(setseeds.node), "R2", f"{setseeds.qualname}#string-seed",
             "RNG seeds must be joined as strings (random.Random.seed(str) is hash-seed independent)", loc=setseeds.loc)
 
+    # RNG internals: every seed argument reaches random.Random.seed as one process-independent string
+    from sa.util import path_condition, truth_table
+    rinit = m.require_function(f"{SRV}.RNG.__init__")
+    va = rinit.node.args.vararg.arg if rinit.node.args.vararg else None
+    r.check(va is not None and any(isinstance(n, ast.Call) and ast.unparse(n.func) == "self.set_seeds" and [ast.unparse(a) for a in n.args] == [f"*{va}"] for n in ast.walk(rinit.node)),
+            "R2", f"{rinit.qualname}#forwards-seeds", "RNG(*seeds) must hand all its arguments to set_seeds", loc=rinit.loc)
+    ssa = setseeds.node.args.vararg.arg if setseeds.node.args.vararg else None
+    r.check(ssa is not None and any(isinstance(n, ast.Assign) and ast.unparse(n.targets[0]) == "self.seeds" and ast.unparse(n.value) in (f"list({ssa})", f"[*{ssa}]") for n in ast.walk(setseeds.node)),
+            "R2", f"{setseeds.qualname}#stores-seeds", "set_seeds must store exactly its arguments as self.seeds", loc=setseeds.loc)
+    seed_calls = [n for n in ast.walk(setseeds.node) if isinstance(n, ast.Expr) and isinstance(n.value, ast.Call) and ast.unparse(n.value.func) == "self.seed"]
+    unseeded = [n for n in seed_calls if not n.value.args and not n.value.keywords]
+    seeded = [n for n in seed_calls if n.value.args]
+    def len_oracle(call, env):
+        return env["__n"] if ast.unparse(call.func) == "len" and ast.unparse(call.args[0]) == "self.seeds" else NotImplemented
+    okk = len(seeded) == 1
+    bad = []
+    if okk:
+        bad = truth_table(path_condition(setseeds.node, seeded[0]), {"__n": [0, 1, 3]}, lambda a: a["__n"] > 0, len_oracle)
+        for u in unseeded:
+            bad += truth_table(path_condition(setseeds.node, u), {"__n": [0, 1, 3]}, lambda a: a["__n"] == 0, len_oracle)
+    r.check(okk and not bad, "R2", f"{setseeds.qualname}#seeded-iff-seeds",
+            f"seeding is conditioned wrongly: {bad}; with seeds the generator must be seeded from them, entropy seeding (self.seed()) is only allowed without seeds", loc=setseeds.loc)
+    if okk:
+        a0 = seeded[0].value.args[0]
+        shape = isinstance(a0, ast.Call) and isinstance(a0.func, ast.Attribute) and a0.func.attr == "join" and isinstance(a0.func.value, ast.Constant) and isinstance(a0.func.value.value, str) \
+            and len(a0.args) == 1 and isinstance(a0.args[0], (ast.GeneratorExp, ast.ListComp)) and len(a0.args[0].generators) == 1 \
+            and ast.unparse(a0.args[0].generators[0].iter) == "self.seeds" and not a0.args[0].generators[0].ifs \
+            and isinstance(a0.args[0].elt, ast.Call) and ast.unparse(a0.args[0].elt.func) == "str" \
+            and ast.unparse(a0.args[0].elt.args[0]) == ast.unparse(a0.args[0].generators[0].target)
+        r.check(shape, "R2", f"{setseeds.qualname}#seed-value",
+                f"random.Random.seed receives `{ast.unparse(a0)[:60]}`; it must be the string join of str(s) over all self.seeds (a hash(), a tuple or a subset is "
+                "process dependent or loses seed components)", loc=setseeds.loc)
+    adds = m.require_function(f"{SRV}.RNG.add_seeds")
+    ava = adds.node.args.vararg.arg if adds.node.args.vararg else None
+    r.check(ava is not None and any(isinstance(n, ast.Call) and ast.unparse(n.func) == "self.set_seeds" and [ast.unparse(a) for a in n.args] == ["*self.seeds", f"*{ava}"]
+                                    for n in ast.walk(adds.node)), "R2", f"{adds.qualname}#appends", "add_seeds must re-seed with the old seeds followed by the new ones", loc=adds.loc)
+
     # ---------------------------------------------------------------- R3
     n_args = 0
     for f in rs.methods.values():
